@@ -286,3 +286,18 @@ package ct
 //@ func (SHA256Hash).Base64String
 //@ props C19
 //@ pure
+
+// Wire layouts of RFC 6962 section 3 (presentation language of RFC 5246 section 4), transcribed
+// from the RFC text; compared on every run with the Go field types and `tls` tags of the structs
+// (field order, integer widths, enum sizes, length-prefix widths and bounds, variant selectors).
+// JSONEntry / JSONDataEntry (entry type 32768) is this implementation's extension, not RFC 6962.
+//@ layout ASN1Cert C04: Data opaque<1..16777215>
+//@ layout LogID C04: KeyID opaque[32]
+//@ layout PreCert C04: IssuerKeyHash opaque[32]; TBSCertificate opaque<1..16777215>
+//@ layout PrecertChainEntry C04: PreCertificate struct ASN1Cert; CertificateChain vector<0..16777215> of ASN1Cert
+//@ layout CertificateChain C04: Entries vector<0..16777215> of ASN1Cert
+//@ layout SignedCertificateTimestamp C04: SCTVersion enum(1); LogID struct LogID; Timestamp uint64; Extensions opaque<0..65535>; Signature struct DigitallySigned
+//@ layout CertificateTimestamp C04 C05: SCTVersion enum(1); SignatureType enum(1); Timestamp uint64; EntryType enum(2); X509Entry select(EntryType=0) ASN1Cert; PrecertEntry select(EntryType=1) PreCert; JSONEntry select(EntryType=32768) JSONDataEntry; Extensions opaque<0..65535>
+//@ layout TimestampedEntry C04: Timestamp uint64; EntryType enum(2); X509Entry select(EntryType=0) ASN1Cert; PrecertEntry select(EntryType=1) PreCert; JSONEntry select(EntryType=32768) JSONDataEntry; Extensions opaque<0..65535>
+//@ layout MerkleTreeLeaf C04: Version enum(1); LeafType enum(1); TimestampedEntry select(LeafType=0) TimestampedEntry
+//@ layout TreeHeadSignature C04 C05: Version enum(1); SignatureType enum(1); Timestamp uint64; TreeSize uint64; SHA256RootHash opaque[32]
